@@ -27,6 +27,25 @@ def bufOp (b : BitBuffer) (tok : String) : Option (Outcome (BitBuffer × String)
   | ["patch", pos, x] => do
     let pos ← parseNat pos; let x ← parseBool x
     pure ((b.patchBit pos x).bind fun b' => .ok (b', "ok"))
+  | ["init", hex, len] => do
+    let bs ← hexToBytes hex; let len ← parseNat len
+    if len > bs.length * 8 then none else
+    pure ((BitBuffer.fromBits bs len).bind fun b' => .ok (b', "ok"))
+  | "at" :: pos :: "wb" :: [x] => do
+    let pos ← parseNat pos; let x ← parseBool x
+    pure ((b.atPos pos fun b => b.writeBit x).bind fun b' => .ok (b', "ok"))
+  | "at" :: pos :: "w" :: [hex, off, len] => do
+    let pos ← parseNat pos; let src ← hexToBytes hex; let off ← parseNat off; let len ← parseNat len
+    pure ((b.atPos pos fun b => b.writeBitsWithOffsetLen src off len).bind fun b' => .ok (b', "ok"))
+  | "at" :: pos :: "wo" :: [hex, off] => do
+    let pos ← parseNat pos; let src ← hexToBytes hex; let off ← parseNat off
+    pure ((b.atPos pos fun b => b.writeBitsWithOffset src off).bind fun b' => .ok (b', "ok"))
+  | "at" :: pos :: "wl" :: [hex, len] => do
+    let pos ← parseNat pos; let src ← hexToBytes hex; let len ← parseNat len
+    pure ((b.atPos pos fun b => b.writeBitsWithLen src len).bind fun b' => .ok (b', "ok"))
+  | "at" :: pos :: "ww" :: [hex] => do
+    let pos ← parseNat pos; let src ← hexToBytes hex
+    pure ((b.atPos pos fun b => b.writeBits src).bind fun b' => .ok (b', "ok"))
   | ["rb"] => pure (b.readBit.bind fun (x, b') => .ok (b', boolStr x))
   | ["r", dstlen, off, len] => do
     let n ← parseNat dstlen; let off ← parseNat off; let len ← parseNat len
